@@ -10,7 +10,14 @@ import (
 func main() {
 	c := core.New("C03", "model_checking")
 	c.Set("rule", "same lattice exploration as C01 with fork families extended to forkers of any weight and double forks; for every emitted block: cheaters == [v in canonical order | two different events of v with equal seq among the ancestors-or-self of the Atropos]")
+	// quick tier: the (small) multi-epoch part first (see C01)
+	epochs := func() { cons.ExploreEpochs(c, cons.Report{"cheaters": true}, true) }
+	if c.Quick() {
+		epochs()
+	}
 	cons.ExploreConsensus(c, cons.DefaultConsFamilies(c.Quick(), true).OnlyForks(), cons.Report{"cheaters": true})
-	cons.ExploreEpochs(c, cons.Report{"cheaters": true}, true)
+	if !c.Quick() {
+		epochs()
+	}
 	c.Finish()
 }
